@@ -193,6 +193,25 @@ class MetaGen:
         r = self.r
         c = r.random()
         meta_bias = 0.45 if self.profile == "meta" else 0.18
+        if self.profile == "cutidx" and c < 0.5:
+            # truncations that cross one or more 128-record index entries of the open file
+            if self.last - max(self.max_ptr, self.applied) < 140:
+                n = r.choice([129, 200, 300])
+                self.ops.append({"op": "batch", "entries": [self.entry(r.choice([BLANK, 3, 60, 200])) for _ in range(n)]})
+                self.features.add("batch")
+            else:
+                lo = max(self.max_ptr, self.applied) + 1
+                k = r.randrange(lo, max(lo + 1, self.last - 128))
+                self.ops.append({"op": "delete_from", "k": k})
+                self.last = k - 1
+                self.term += 1
+                self.features.add("truncate-across-index-entry")
+                e = self.entry(self.pick_len())
+                self.ops.append({"op": "append", "index": e[0], "term": e[1], "uid": e[2], "len": e[3]})
+            return
+        if self.profile == "meta" and c > 0.97:
+            self.ops.append({"op": "sleep", "ms": 260})      # lets delayed / debounced writers fire inside the history
+            return
         if self.profile == "snap" and c < 0.35:
             # apply-then-compact cycles: CompleteSnapshot unlinks the oldest snapshot from the third one on
             if self.last > self.applied:
@@ -451,7 +470,8 @@ def check_meta(table, markers, rec):
     the last acknowledged value may lag by exactly that one write."""
     out = []
     if not rec.get("recovered"):
-        return out
+        # term, vote, membership and addresses cannot be read at all
+        return [("metadata-unreadable-after-crash", {"why": rec.get("why"), "detail": json.dumps(rec.get("detail"))[:300]})]
     submitted, acked = [], set()
     for m in markers:
         kind, n = m.split()
@@ -517,6 +537,22 @@ def check_meta(table, markers, rec):
             if g not in allowed(slot):
                 out.append(("node-address-not-the-acknowledged-one", {"id": k, "got": g, "allowed": allowed(slot)}))
     return out
+
+
+def check_snapshot(table, markers, rec):
+    """C04: the snapshot the recovered catalogue points at can be opened and read by the real reader"""
+    if not rec.get("recovered"):
+        return []
+    info = rec.get("index_info") or {}
+    snaps = info.get("snapshots") or []
+    if not snaps:
+        return []
+    cur = rec.get("snapshot") or {}
+    if not cur.get("ok", True) or cur.get("none") or cur.get("err"):
+        return [("catalogued-snapshot-unreadable", {"catalogue": snaps, "current_snapshot": {k: cur.get(k) for k in ("ok", "err", "none")}})]
+    if cur.get("ok") is True and cur.get("records") is not None and cur.get("index") != snaps[-1]["end"]:
+        return [("catalogued-snapshot-unreadable", {"catalogue": snaps, "snapshot_index": cur.get("index")})]
+    return []
 
 
 def check_applied(table, markers, rec):
